@@ -247,6 +247,21 @@ def random_program(rng, pid, maxdepth=3):
     return dict(I.program(f"p{pid}", ["x"], body, pid=pid), form="random", ctx="random", family="RND")
 
 
+def family_state():
+    """functions that keep state between calls in a mutable default argument; called once before and once after they are
+    instrumented (C01: what the function remembers must carry over)"""
+    progs = []
+    k = K()
+    body = [I.aug(I.name("m"), I.site(k())), I.assign(I.name("a"), I.site(k())), I.ret(I.read("a"))]
+    p = I.program("st8001", ["x", "m"], body, pid=8001)
+    progs.append(dict(p, defaults={"m": {"e": "acc", "k": 5}}, precall=True, form="mutable_default", ctx="top", family="FS"))
+    k = K()
+    body = [I.for_(I.name("i"), k(), [I.aug(I.name("m"), I.read("i"))]), I.ret(I.site(k()))]
+    p = I.program("st8002", ["x", "m"], body, pid=8002)
+    progs.append(dict(p, defaults={"m": {"e": "acc", "k": 6}}, precall=True, form="mutable_default_loop", ctx="for", family="FS"))
+    return progs
+
+
 def family_f16():
     """declared-only variables and conditionally used undefined globals (C16)"""
     progs = []
